@@ -5,7 +5,7 @@ import ast
 
 from ..fdai import LinInterp, Lin, Obj, PyRaise, Unknown, explore, Imprecise, entails, Interp
 from ..loader import AnchorError, short, src, walk_no_nested
-from ..rules import where
+from ..rules import accessor_field, dict_key_field, where
 
 MB = "operon_ai/state/metabolism.py"
 FILES = [MB]
@@ -24,9 +24,18 @@ def run(p, led, tier):
     store = p.cls("ATP_Store", MB)
     ET = p.cls("EnergyType", MB)
     MS = p.cls("MetabolicState", MB)
-    for m in ("consume", "regenerate", "transfer_to", "convert_nadh_to_atp", "reset", "_update_state"):
+    for m in ("consume", "regenerate", "transfer_to", "convert_nadh_to_atp", "reset"):
         if p.find_method(store, m) is None:
             raise AnchorError(f"ATP_Store.{m} not found")
+    # private fields, found through the public accessors that expose them
+    DEBT = accessor_field(p, store, "get_debt")
+    STATE = accessor_field(p, store, "get_state")
+    CONSUMED = dict_key_field(p, store, "get_statistics", "total_consumed")
+    REGEN = dict_key_field(p, store, "get_statistics", "total_regenerated")
+    for nm_, v_ in (("debt (get_debt)", DEBT), ("state (get_state)", STATE), ("total_consumed (get_statistics)", CONSUMED), ("total_regenerated (get_statistics)", REGEN)):
+        if v_ is None:
+            raise AnchorError(f"ATP_Store: the field behind {nm_} could not be identified")
+    led.extra["fields"] = dict(debt=DEBT, state=STATE, consumed=CONSUMED, regenerated=REGEN)
     led.explanation = (
         "Affine effect analysis: every ledger method is abstractly interpreted from a *symbolic* state — balances, "
         "capacities, debt, cost/amount are integer symbols constrained only by the ledger invariant "
@@ -57,8 +66,8 @@ def run(p, led, tier):
         st = it.instantiate(store, [], dict(budget=0, gtp_budget=0, nadh_reserve=0, regeneration_rate=0.0, max_debt=0, on_state_change=None, silent=True))
         pre = "p_" if peer else ""
         s = {k: Lin.sym(pre + k) for k in SYMS}
-        st.fields.update(atp=s["atp0"], gtp=s["gtp0"], nadh=s["nadh0"], max_atp=s["max_atp"], max_gtp=s["max_gtp"], max_nadh=s["max_nadh"], _debt=s["debt0"], max_debt=s["max_debt"],
-                         _total_consumed=s["consumed0"], _total_regenerated=s["regen0"], _state=it.enum_member(MS, state))
+        st.fields.update(atp=s["atp0"], gtp=s["gtp0"], nadh=s["nadh0"], max_atp=s["max_atp"], max_gtp=s["max_gtp"], max_nadh=s["max_nadh"], max_debt=s["max_debt"])
+        st.fields.update({DEBT: s["debt0"], CONSUMED: s["consumed0"], REGEN: s["regen0"], STATE: it.enum_member(MS, state)})
         for b in BAL:
             it.assume(s[b + "0"])
             it.assume(s["max_" + b].add(s[b + "0"], -1))
@@ -72,7 +81,7 @@ def run(p, led, tier):
         w = Lin()
         for b in BAL:
             w = w.add(L(fields[b]))
-        return w.add(L(fields["_debt"]), -1)
+        return w.add(L(fields[DEBT]), -1)
 
     def check_exit(it, st, s, before_worth, kind, ret, raised, amount, energy, problems):
         f = st.fields
@@ -87,14 +96,14 @@ def run(p, led, tier):
             # the statement bounds balances by their capacity for regeneration (and conversion clamps explicitly); a spend may top ATP up from NADH
             if kind in ("regenerate", "convert") and v is not None and cap is not None and not entails(it.facts, cap.add(v, -1)):
                 problems["C04-R3"].append(f"{b} = {f[b]!r} can exceed max_{b} = {cap!r}")
-        d = L(f["_debt"])
+        d = L(f[DEBT])
         if d is None or not entails(it.facts, d):
-            problems["C04-R2"].append(f"debt = {f['_debt']!r} is not provably ≥ 0")
+            problems["C04-R2"].append(f"debt = {f[DEBT]!r} is not provably ≥ 0")
         elif not entails(it.facts, L(f["max_debt"]).add(d, -1)):
             problems["C04-R2"].append(f"debt = {d!r} can exceed max_debt")
         dw = worth(f).add(before_worth, -1)
         if kind == "consume":
-            dc = L(f["_total_consumed"]).add(s["consumed0"], -1)
+            dc = L(f[CONSUMED]).add(s["consumed0"], -1)
             if ret is True:
                 want = L(amount).scale(-1)
                 if dw != want:
@@ -104,8 +113,8 @@ def run(p, led, tier):
             elif ret is False:
                 if dw != Lin():
                     problems["C04-R4"].append(f"failure: net worth changed by {dw!r}")
-                if L(f["_debt"]) != s["debt0"]:
-                    problems["C04-R4"].append(f"failure: debt changed to {f['_debt']!r}")
+                if L(f[DEBT]) != s["debt0"]:
+                    problems["C04-R4"].append(f"failure: debt changed to {f[DEBT]!r}")
                 if dc != Lin():
                     problems["C04-R4"].append("failure: consumption counter changed")
             else:
@@ -183,8 +192,8 @@ def run(p, led, tier):
             # the peer: a second symbolic store sharing the interpreter (its own symbols and invariant)
             peer = it.instantiate(store, [], dict(budget=0, gtp_budget=0, nadh_reserve=0, regeneration_rate=0.0, max_debt=0, on_state_change=None, silent=True))
             ps = {k: Lin.sym("peer_" + k) for k in SYMS}
-            peer.fields.update(atp=ps["atp0"], gtp=ps["gtp0"], nadh=ps["nadh0"], max_atp=ps["max_atp"], max_gtp=ps["max_gtp"], max_nadh=ps["max_nadh"], _debt=ps["debt0"],
-                               max_debt=ps["max_debt"], _total_consumed=ps["consumed0"], _total_regenerated=ps["regen0"], _state=it.enum_member(MS, "NORMAL"))
+            peer.fields.update(atp=ps["atp0"], gtp=ps["gtp0"], nadh=ps["nadh0"], max_atp=ps["max_atp"], max_gtp=ps["max_gtp"], max_nadh=ps["max_nadh"], max_debt=ps["max_debt"])
+            peer.fields.update({DEBT: ps["debt0"], CONSUMED: ps["consumed0"], REGEN: ps["regen0"], STATE: it.enum_member(MS, "NORMAL")})
             for b_ in BAL:
                 it.assume(ps[b_ + "0"])
                 it.assume(ps["max_" + b_].add(ps[b_ + "0"], -1))
@@ -207,9 +216,9 @@ def run(p, led, tier):
                         local["C04-R1"].append(f"{who}: {b_} = {f[b_]!r} is not provably ≥ 0")
                     if who == "receiver" and v is not None and not entails(it.facts, L(f["max_" + b_]).add(v, -1)):
                         local["C04-R3"].append(f"receiver: {b_} = {f[b_]!r} can exceed its capacity")
-                d = L(f["_debt"])
+                d = L(f[DEBT])
                 if d is None or not entails(it.facts, d) or not entails(it.facts, L(f["max_debt"]).add(d, -1)):
-                    local["C04-R2"].append(f"{who}: debt = {f['_debt']!r} not provably within [0, max_debt]")
+                    local["C04-R2"].append(f"{who}: debt = {f[DEBT]!r} not provably within [0, max_debt]")
             dself = worth(st.fields).add(w0, -1)
             dpeer = worth(peer.fields).add(pw0, -1)
             total = dself.add(dpeer)
@@ -244,7 +253,7 @@ def run(p, led, tier):
         for bal in BAL:
             if not entails(it.facts, L(f[bal])) or not entails(it.facts, L(f["max_" + bal]).add(L(f[bal]), -1)):
                 probs.append(f"{bal} not within [0, max_{bal}] after construction")
-        if L(f["_debt"]) != Lin():
+        if L(f[DEBT]) != Lin():
             probs.append("debt not 0 after construction")
         return probs
     probs = [x for _, r in explore(go_c) for x in r]
@@ -267,7 +276,7 @@ def run(p, led, tier):
         for bal in BAL:
             if L(f[bal]) != L(f["max_" + bal]):
                 out.append(f"reset leaves {bal} = {f[bal]!r}")
-        if L(f["_debt"]) != Lin():
+        if L(f[DEBT]) != Lin():
             out.append("reset leaves debt")
         return out
     probs = [x for _, r in explore(go_r, max_paths=2000) for x in r]
